@@ -307,6 +307,57 @@ def vertexEnum (m n : Nat) (lab0 lab1 : List (List Nat)) (eqs0 eqs1 : List (List
   (veMatch m n bits0 bits1).map fun ij =>
     veMixedActions m n (bits0.getD ij.1 0) (eqs0.getD ij.1 []) (eqs1.getD ij.2 []) t0 t1
 
+/-- `payoff_vector.max()` / `row_sums.max()` -/
+def vecMax (n : Nat) (f : Nat → α) : α :=
+  (List.range n).foldl (fun acc b => if acc < f b then f b else acc) (f 0)
+
+/-! ### `_BestResponsePolytope.__init__` (vertex_enumeration.py 209-245): the points handed to Qhull
+
+`Bm` is the opponent's payoff array, `r × c` (`r` = opponent's actions, `c` = own actions,
+the dimension of the polytope). -/
+
+/-- `B.min(axis=0)[j]` -/
+def colMin (r : Nat) (Bm : Nat → Nat → α) (j : Nat) : α :=
+  (List.range r).foldl (fun acc i => if Bm i j < acc then Bm i j else acc) (Bm 0 j)
+
+/-- `B.max(axis=0)[j]` -/
+def colMax (r : Nat) (Bm : Nat → Nat → α) (j : Nat) : α :=
+  (List.range r).foldl (fun acc i => if acc < Bm i j then Bm i j else acc) (Bm 0 j)
+
+/-- `shifts[j]`: `-col_min` when the column minimum is negative, plus 1 when the column is
+    constant and non-positive (lines 226-231) -/
+def brpShift (r : Nat) (Bm : Nat → Nat → α) (j : Nat) : α :=
+  let mn := colMin r Bm j
+  let s0 : α := if mn < 0 then -mn else 0
+  if (colMax r Bm j == mn) && decide (mn ≤ 0) then s0 + 1 else s0
+
+/-- `B + shifts` -/
+def brpShifted (r : Nat) (Bm : Nat → Nat → α) (i j : Nat) : α := Bm i j + brpShift r Bm j
+
+/-- `row_sums[i]` of the shifted array -/
+def brpRowSum (r c : Nat) (Bm : Nat → Nat → α) (i : Nat) : α := sumRange c fun j => brpShifted r Bm i j
+
+/-- `trans_recip = row_sums.max() * 2` -/
+def brpTransRecip (r c : Nat) (Bm : Nat → Nat → α) : α :=
+  vecMax r (brpRowSum r c Bm) * (1 + 1)
+
+/-- the `(r + c) × c` array `D` passed to `scipy.spatial.ConvexHull`; `idx = 0`: the `c`
+    non-negativity rows first, `idx = 1`: the `r` payoff rows first -/
+def brpPoints (idx r c : Nat) (Bm : Nat → Nat → α) : M α :=
+  let t := brpTransRecip r c Bm
+  let nn0 := if idx = 0 then 0 else r       -- nonneg_cond_start
+  let pay0 := if idx = 0 then c else 0      -- payoff_cond_start
+  M.tab (r + c) c fun k j =>
+    if pay0 ≤ k ∧ k < pay0 + r then
+      (brpShifted r Bm (k - pay0) j * t) / (t - brpRowSum r c Bm (k - pay0))
+    else if k - nn0 = j then -t else 0
+
+/-- the argument checks of `_BestResponsePolytope.__init__` (209-216): the input must have a
+    `num_opponents` attribute, equal to 1 -/
+def brpArgCheck (hasNumOpponents : Bool) (numOpponents : Nat) : String :=
+  if !hasNumOpponents then "ERR:TypeError"
+  else if numOpponents ≠ 1 then "ERR:NotImplementedError" else "ok"
+
 /-! ### pure_nash_brute on an N-player game
 
 `nums` = numbers of actions; `pay.getD i []` = player `i`'s payoff array, C-order flattened,
@@ -323,10 +374,6 @@ def flatIdx (shape idx : List Nat) : Nat :=
     `payoff_vector(opponents_actions)[b]` -/
 def payoffAt (nums : List Nat) (pay : List (List α)) (i : Nat) (a : List Nat) (b : Nat) : α :=
   (pay.getD i []).getD (flatIdx (rot nums i) (b :: (rot a i).tail)) 0
-
-/-- `payoff_vector.max()` -/
-def vecMax (n : Nat) (f : Nat → α) : α :=
-  (List.range n).foldl (fun acc b => if acc < f b then f b else acc) (f 0)
 
 /-- `player.is_best_response(a_i, opponents_actions, tol)` for a pure own action -/
 def isBR (nums : List Nat) (pay : List (List α)) (tol : α) (a : List Nat) (i : Nat) : Bool :=
@@ -457,6 +504,19 @@ def handle (toks : List String) : String :=
           showList showRat ((List.range (own.length + 1)).map fun i => Z.get i 0)
       else "bad-op"
     | _, _, _, _ => "bad-op"
+  | "brp" :: r =>
+    -- the points given to Qhull and trans_recip, in IEEE doubles
+    match kvNat r "idx", kvNat r "r", kvNat r "c", kvFloatMat r "B" with
+    | some idx, some rr, some c, some Bm =>
+      if shaped rr c Bm && rr ≥ 1 && c ≥ 1 && idx ≤ 1 then
+        showFloatBits (brpTransRecip rr c (fnOfMat Bm)) ++ " " ++
+        showMat showFloatBits (brpPoints idx rr c (fnOfMat Bm)).toRows
+      else "bad-op"
+    | _, _, _, _ => "bad-op"
+  | "brpargs" :: r =>
+    match kvNat r "has", kvNat r "nopp" with
+    | some h, some k => brpArgCheck (h == 1) k
+    | _, _ => "bad-op"
   | "tols" :: _ =>
     -- the documented constants of optimize/pivoting.py (TOL_PIV, TOL_RATIO_DIFF) as the model pins them
     showFloatBits tolPivF ++ " " ++ showFloatBits tolRatioDiffF
